@@ -20,6 +20,7 @@ class FixedContext___init__(Contract):
     binds = {'self.rng': 'rng'}
     split = ['signed']
     no_use = ['MPBFixedContext.__init__']     # super().__init__ on the subclass receiver: inlined
+    options = {'noax_first_ms': 4000, 'light_theory': True}
 
     def post(self, signed, scale, nbits, rm, overflow, num_randbits, rng, result):
         return {
@@ -53,6 +54,7 @@ class SMFixedContext___init__(Contract):
     properties = ['C01']
     binds = {'self.rng': 'rng'}
     no_use = ['MPBFixedContext.__init__']     # super().__init__ on the subclass receiver: inlined
+    options = {'noax_first_ms': 4000, 'light_theory': True}
 
     def post(self, scale, nbits, rm, overflow, num_randbits, rng, result):
         return {
